@@ -617,7 +617,101 @@ def check_constraint_once(repo, chk, levels, rule="A-once"):
     return n
 
 
+def check_gauss_constr(repo, chk, parts=("value", "grad", "hess")):
+    """GaussianConstr interpreted on a manager with a trainable and a fixed constrained parameter"""
+    import numpy as np
+    import sympy as sp
+
+    from ..sym import SelfObj, Translator, Unmodelled, equal
+    MODEL = "tf_pwa/model/model.py"
+    chk.rule("G-constr", "GaussianConstr on a manager with trainable a, c and fixed b, constraints on a and b: the term is sum_i (theta_i - mu_i)^2 / (2 sigma_i^2) over every constrained parameter (a fixed one included: it is part of the reported NLL, e.g. in a likelihood scan), and get_constrain_grad / get_constrain_hessian are its first / second derivatives with respect to the trainable parameters, in trainable_vars order")
+    gc = repo.cls(MODEL + "::GaussianConstr")
+    a, b, c = sp.symbols("theta_a theta_b theta_c", real=True)
+    ma, mb = sp.symbols("mu_a mu_b", real=True)
+    sa_, sb_ = sp.symbols("sigma_a sigma_b", positive=True)
+    vm = SelfObj(repo.cls("tf_pwa/variable.py::VarsManager"), {"variables": {"a": a, "b": b, "c": c}, "trainable_vars": ["a", "c"]})
+    so = SelfObj(gc, {"vm": vm, "constraint": {"a": (ma, sa_), "b": [mb, sb_]}})
+    want_term = (a - ma) ** 2 / (2 * sa_ ** 2) + (b - mb) ** 2 / (2 * sb_ ** 2)
+    tr = Translator(repo, hooks={"concrete_zeros": True, "stack_as_array": True, "builtin.isinstance": lambda tr_, a_, k_, n_: True}, max_depth=2)
+
+    def run_(name):
+        m = gc.methods.get(name)
+        if m is None:
+            raise AnalysisError("anchor vanished: GaussianConstr.%s" % name)
+        try:
+            return m, tr.call_fn(m, [], {}, self_obj=so)
+        except Unmodelled as e:
+            raise AnalysisError("GaussianConstr.%s cannot be interpreted: %s" % (name, e))
+
+    if "value" in parts:
+        m, term = run_("get_constrain_term")
+        ok = equal(sp.sympify(term), want_term)[0] is True
+        chk.oblige("G-constr", "get_constrain_term == (a-mu_a)^2/(2 s_a^2) + (b-mu_b)^2/(2 s_b^2) (b fixed)", ok)
+        if not ok:
+            chk.violation("G-constr", m.key, "term", "the constraint term is %s, the documented penalty of the configured constraints is %s" % (term, want_term), file=MODEL, line=m.lineno)
+    if "grad" in parts:
+        m, g = run_("get_constrain_grad")
+        g = [sp.sympify(x) for x in np.asarray(g, dtype=object).reshape(-1)]
+        want = [sp.diff(want_term, a), sp.diff(want_term, c)]
+        ok = len(g) == 2 and all(equal(x, y)[0] is True for x, y in zip(g, want))
+        chk.oblige("G-constr", "get_constrain_grad == d term / d (a, c)", ok)
+        if not ok:
+            chk.violation("G-constr", m.key, "grad", "the constraint gradient is %s, the derivative of the penalty with respect to the trainable (a, c) is %s" % (g, want), file=MODEL, line=m.lineno)
+    if "hess" in parts:
+        m, h = run_("get_constrain_hessian")
+        h = np.asarray(h, dtype=object)
+        want = [[sp.diff(want_term, x, y) for y in (a, c)] for x in (a, c)]
+        ok = h.shape == (2, 2) and all(equal(sp.sympify(h[i, j]), want[i][j])[0] is True for i in range(2) for j in range(2))
+        chk.oblige("G-constr", "get_constrain_hessian == d2 term / d (a, c)^2", ok)
+        if not ok:
+            chk.violation("G-constr", m.key, "hess", "the constraint Hessian is %s, the second derivative of the penalty with respect to (a, c) is %s" % (h.tolist(), want), file=MODEL, line=m.lineno)
+
+
+def check_sumvar(repo, chk):
+    """SumVar carries value / gradient / Hessian of a batched sum; adding two batches adds all three"""
+    import sympy as sp
+
+    from ..sym import SelfObj, Translator, Unmodelled, equal
+    VARF = "tf_pwa/variable.py"
+    chk.rule("S-sumvar", "SumVar.__add__ interpreted on two symbolic batch results: value, gradient and Hessian of the sum are the sums of the parts' (nested structures leaf by leaf); the Hessian is dropped only if a part has none")
+    sv = repo.cls_opt(VARF + "::SumVar") if hasattr(repo, "cls_opt") else repo.cls(VARF + "::SumVar")
+    add = sv.methods.get("__add__")
+    if add is None:
+        raise AnalysisError("anchor vanished: SumVar.__add__")
+
+    def mk(tag, hess=True):
+        v = [sp.Symbol("v%s_%d" % (tag, i)) for i in range(2)]
+        g = [sp.Symbol("g%s_%d" % (tag, i)) for i in range(2)]
+        h = [sp.Symbol("h%s_%d" % (tag, i)) for i in range(2)] if hess else None
+        return SelfObj(sv, {"value": list(v), "grad": list(g), "hess": h, "var": ["x", "y"]}), v, g, h
+
+    for h1, h2 in ((True, True), (True, False), (False, True)):
+        A, va, ga, ha = mk("A", h1)
+        B, vb, gb, hb = mk("B", h2)
+        tr = Translator(repo, hooks={"construct": {sv.key}, "builtin.isinstance": lambda tr_, a_, k_, n_: isinstance(a_[0], SelfObj) and a_[0].cls is sv}, max_depth=3)
+        try:
+            out = tr.call_fn(add, [B], {}, self_obj=A)
+        except Unmodelled as e:
+            raise AnalysisError("SumVar.__add__ cannot be interpreted: %s" % e)
+        if not isinstance(out, SelfObj):
+            raise AnalysisError("SumVar.__add__ does not return a SumVar in the abstract run: %r" % (out,))
+        want = {"value": [x + y for x, y in zip(va, vb)], "grad": [x + y for x, y in zip(ga, gb)], "hess": [x + y for x, y in zip(ha, hb)] if (h1 and h2) else None}
+        bad = []
+        for k, w in want.items():
+            got = out.attrs.get(k)
+            if w is None:
+                if got is not None:
+                    bad.append("%s is %s although a part carries none" % (k, got))
+            elif not (isinstance(got, (list, tuple)) and len(got) == len(w) and all(equal(sp.sympify(x), y)[0] is True for x, y in zip(got, w))):
+                bad.append("%s of the sum is %s, expected %s" % (k, got, w))
+        chk.oblige("S-sumvar", "SumVar + SumVar (Hessians present: %s, %s): components add" % (h1, h2), not bad)
+        for b in bad[:2]:
+            chk.violation("S-sumvar", add.key, "add:%s%s" % (int(h1), int(h2)), "SumVar.__add__: %s - the normalisation integral of a batched custom model then has the wrong value / derivatives for more than one phase-space batch" % b, file=VARF, line=add.lineno)
+
+
 def run(repo, chk, tier):
+    check_sumvar(repo, chk)
+    check_gauss_constr(repo, chk)
     check_constraint_once(repo, chk, ("value", "grad", "hess"))
     chk.assume("tensor shapes are abstracted: x[:, None] / x[None, :] are identities, products commute (diagonal scalings)")
     clause_a(repo, chk)
